@@ -7,6 +7,7 @@ R07.2 (K1 + order): inside report_connection_closed the send to the manager lies
 R07.3 (K5 sibling): report_connection_established must not leave its fan-out loop on a single
        failed protocol send (its sibling report_connection_closed continues).
 R07.5 (K4, at most once): one close-report call site per connection loop closure, outside loops (tcp/websocket/quic)
+R07.6 (K1): both protocol fan-outs run to completion whatever the loop form (no break / return after a completed send)
 R07.4 (K2): TransportManager::on_connection_closed yields TransportEvent::ConnectionClosed only over the
        'true' result of PeerState::on_connection_closed.
 """
@@ -122,7 +123,7 @@ def r07_2(ctx, fx):
            site=fn.site(sends[0].node), detail="fan-out polls reachable after the manager send: %s" % late, cfg=fx.cfg)
     # the manager send is not reachable without passing the fan-out loop's exit test (is_empty)
     empties = fn.calls(r"FuturesUnordered.*::is_empty$")
-    ctx.anchor("R07.2", "fan-out loop test is_empty", len(empties), 1, cfg=fx.cfg)
+    # the `while !futures.is_empty()` form; the `while let Some(..) = futures.next().await` form is covered by R07.6
     if empties:
         r = fn.reach([fn.entry], avoid=[e.node for e in empties])
         ctx.ob("R07.2", "report_connection_closed/send-after-loop", sends[0].node not in r,
@@ -135,15 +136,55 @@ def r07_2(ctx, fx):
                site=fn.site(empties[0].node), detail="exits reachable from the fan-out loop without the manager send: %s" % [fn.site(n) for n in inloop], cfg=fx.cfg)
 
 
+def fanout_polls(fn):
+    """polls of `futures.next()` on the FuturesUnordered of per-protocol sends"""
+    return [c for c in fn.calls(r"StreamExt::next$|FuturesUnordered.*::poll_next|Next<.*>.*::poll$|future::Future::poll$")
+            if any("FuturesUnordered" in a for a in c.f.get("args", [])) and c.matches(r"poll")]
+
+
+def fanout_left_early(fn, targets):
+    """witness path from a `Ready(Some(_))` result of the fan-out poll to one of `targets` that neither polls the fan-out again
+    nor re-tests is_empty: the loop was left while sends may still be outstanding.  Works for both loop forms
+    (`while !futures.is_empty() { futures.next().await }` and `while let Some(r) = futures.next().await`)."""
+    from paths import refine_cuts
+    polls = fanout_polls(fn)
+    retest = [c.node for c in polls] + [c.node for c in fn.calls(r"FuturesUnordered.*::is_empty$")]
+    for p in polls:
+        cuts = refine_cuts(fn, p, ["Ready", "Some", "?"])
+        if not cuts:
+            continue
+        w = fn.witness_path([p.node], targets, avoid=retest, cut=cuts, after=True)
+        if w is not None:
+            return w
+    return None
+
+
+def r07_6(ctx, fx):
+    """both fan-outs run to completion: neither the manager send / exits of report_connection_closed nor the exits of
+    report_connection_established are reachable from a completed send without re-checking that the fan-out is drained"""
+    for meth in ("report_connection_closed", "report_connection_established"):
+        fn = ctx.fn(fx, "protocol::protocol_set::ProtocolSet::%s::{closure#0}" % meth, "R07.6")
+        if fn is None:
+            continue
+        polls = fanout_polls(fn)
+        ctx.anchor("R07.6", "%s: fan-out poll" % meth, len(polls), 1, cfg=fx.cfg)
+        targets = [n for n, _ in fn.exits()]
+        if meth == "report_connection_closed":
+            targets += [c.node for c in fn.calls(r"mpsc::(bounded::)?Sender::send$") if any("TransportManagerEvent" in a for a in c.f.get("args", []))]
+        w = fanout_left_early(fn, targets)
+        ctx.ob("R07.6", "%s/fan-out-runs-to-completion" % meth, w is None, site=fn.site(polls[0].node) if polls else fn.site(fn.entry), cfg=fx.cfg,
+               detail="after one protocol's send completed (possibly with an error) the loop is left without draining the remaining sends: %s"
+                      % (fn.path_sites(w) if w else None))
+
+
 def r07_3(ctx, fx):
     key = "protocol::protocol_set::ProtocolSet::report_connection_established::{closure#0}"
     fn = ctx.fn(fx, key, "R07.3")
     if fn is None:
         return
     empties = fn.calls(r"FuturesUnordered.*::is_empty$")
-    ctx.anchor("R07.3", "fan-out loop test is_empty", len(empties), 1, cfg=fx.cfg)
     if not empties:
-        return
+        return   # other loop form: R07.6 decides
     # an exit reachable from the loop body without re-evaluating the loop test = abort on first error
     loop_test = [e.node for e in empties]
     # the loop-exit edge: is_empty() result true -> leaves loop. body = successors over the 'not empty' edge.
@@ -208,4 +249,5 @@ def run(ctx):
             r07_2(ctx, fx)
             r07_3(ctx, fx)
             r07_4(ctx, fx)
+            r07_6(ctx, fx)
     ctx.assume("cancellation of the connection task (executor shutdown) is not an exit")
